@@ -332,22 +332,13 @@ impl Generator
 	fn get_trap_like_intrinsic(&mut self, name: &'static str) -> LLVMValueRef
 	{
 		let function = self.used_intrinsics.entry(name).or_insert_with(|| {
-			let linkage = LLVMLinkage::LLVMExternalLinkage;
-			let callconv = LLVMCallConv::LLVMCCallConv;
 			let function_name = CString::new(name.as_bytes()).unwrap();
 
 			unsafe {
 				let return_type = LLVMVoidTypeInContext(self.context);
 				let function_type =
 					LLVMFunctionType(return_type, std::ptr::null_mut(), 0, 0);
-				let function = LLVMAddFunction(
-					self.module,
-					function_name.as_ptr(),
-					function_type,
-				);
-				LLVMSetLinkage(function, linkage);
-				LLVMSetFunctionCallConv(function, callconv as u32);
-				function
+				declare_c_function(self.module, &function_name, function_type)
 			}
 		});
 		*function
@@ -359,8 +350,6 @@ impl Generator
 		let return_type_ref = unsafe { LLVMInt32TypeInContext(self.context) };
 		let name = "snprintf";
 		let function = self.used_intrinsics.entry(name).or_insert_with(|| {
-			let linkage = LLVMLinkage::LLVMExternalLinkage;
-			let callconv = LLVMCallConv::LLVMCCallConv;
 			let function_name = CString::new(name.as_bytes()).unwrap();
 			let is_var_args = 1;
 
@@ -377,14 +366,7 @@ impl Generator
 					args.len() as u32,
 					is_var_args,
 				);
-				let function = LLVMAddFunction(
-					self.module,
-					function_name.as_ptr(),
-					function_type,
-				);
-				LLVMSetLinkage(function, linkage);
-				LLVMSetFunctionCallConv(function, callconv as u32);
-				function
+				declare_c_function(self.module, &function_name, function_type)
 			}
 		});
 		(*function, return_type)
@@ -396,8 +378,6 @@ impl Generator
 		let return_type_ref = unsafe { LLVMInt64TypeInContext(self.context) };
 		let name = "write";
 		let function = self.used_intrinsics.entry(name).or_insert_with(|| {
-			let linkage = LLVMLinkage::LLVMExternalLinkage;
-			let callconv = LLVMCallConv::LLVMCCallConv;
 			let function_name = CString::new(name.as_bytes()).unwrap();
 
 			unsafe {
@@ -412,14 +392,7 @@ impl Generator
 					args.len() as u32,
 					0,
 				);
-				let function = LLVMAddFunction(
-					self.module,
-					function_name.as_ptr(),
-					function_type,
-				);
-				LLVMSetLinkage(function, linkage);
-				LLVMSetFunctionCallConv(function, callconv as u32);
-				function
+				declare_c_function(self.module, &function_name, function_type)
 			}
 		});
 		(*function, return_type)
@@ -444,6 +417,49 @@ impl Generator
 			}
 		});
 		*function
+	}
+}
+
+/// Declare a function of the C library that is needed by a builtin.
+/// It has to be found by the linker under exactly this name, also if
+/// the module itself happens to declare something with that name.
+fn declare_c_function(
+	module: LLVMModuleRef,
+	name: &CStr,
+	function_type: LLVMTypeRef,
+) -> LLVMValueRef
+{
+	unsafe {
+		let mut taken = LLVMGetNamedFunction(module, name.as_ptr());
+		if taken.is_null()
+		{
+			taken = LLVMGetNamedGlobal(module, name.as_ptr());
+		}
+		let is_private = !taken.is_null()
+			&& LLVMGetLinkage(taken) == LLVMLinkage::LLVMPrivateLinkage;
+		let callconv = LLVMCallConv::LLVMCCallConv as u32;
+		if !taken.is_null()
+			&& !is_private
+			&& LLVMGetFunctionCallConv(taken) == callconv
+		{
+			// An `extern` function with this name is that same function of
+			// the C library, whichever signature the program has given it.
+			return LLVMConstBitCast(taken, LLVMPointerType(function_type, 0));
+		}
+		if is_private
+		{
+			// The name of a private function or constant is of no importance.
+			LLVMSetValueName(taken, cstr!(""));
+		}
+		let function = LLVMAddFunction(module, name.as_ptr(), function_type);
+		if is_private
+		{
+			// The name is taken now, hence LLVM adds a suffix to it.
+			LLVMSetValueName(taken, name.as_ptr());
+		}
+		LLVMSetLinkage(function, LLVMLinkage::LLVMExternalLinkage);
+		LLVMSetFunctionCallConv(function, callconv);
+		function
 	}
 }
 
